@@ -277,6 +277,13 @@ func (s *Error) UnmarshalXML(d *xml.Decoder, start xml.StartElement) error {
 			if err = d.Skip(); err != nil {
 				return err
 			}
+		default:
+			// An application specific condition (or anything else we do not know):
+			// skip the whole element so that its end token is not mistaken for the
+			// end of the error.
+			if err = d.Skip(); err != nil {
+				return err
+			}
 		}
 	}
 }
